@@ -270,32 +270,57 @@ def worker(job):
                 asyncio.run(run_schedule(part, m, progs, sched, explore=False))
         with guarded(part, 'C20 file lock', dict(scenario='filelock', seed=seed)):
             for k in range(max(4, nrandom // 2)):
-                asyncio.run(filelock_case(part, r))
+                asyncio.run(filelock_case(part, r, m))
     finally:
         m.close()
     return part.result()
 
 
 # ------------------------------------------------------------------ FileLock
-async def filelock_case(part, r):
+async def filelock_case(part, r, m):
     from pymap.concurrent import FileLock
     d = backends.scratch_dir('pymap-verif-fl-')
     path = os.path.join(d, 'lockfile')
     holders = []
     events = []
+    started = set()
+    trace = []
     case = dict(scenario='filelock', plan=[])
     try:
         n = r.randint(2, 4)
-        plan = [(r.choice(['ok', 'ok', 'raise', 'cancel']), r.randint(0, 3)) for _ in range(n)]
+        # 'cancel-wait': cancelled while it is still waiting for the lock; 'impatient': a retry budget of two attempts (may time out)
+        plan = [(r.choice(['ok', 'ok', 'raise', 'cancel', 'cancel-wait', 'impatient']), r.randint(0, 5)) for _ in range(n)]
         case['plan'] = plan
         if r.random() < 0.2:
             # a stale lock file older than the expiration is taken over
             with open(path, 'x'):
                 pass
             os.utime(path, (1, 1))
+            trace.append('s')
 
         async def writer(i, how, yields):
-            lock = FileLock(path, expiration=600.0, write_retry_delay=(0.0,) * 60)
+            lock = FileLock(path, expiration=600.0, write_retry_delay=(0.0,) * (2 if how == 'impatient' else 60))
+            started.add(i)
+            # trace of the primitive steps, in the alphabet of the Lean `FileLock` model
+            t0, u0, c0 = lock._try_lock, lock._unlock, lock._check_lock
+
+            def try_lock():
+                ok = t0()
+                if ok:
+                    trace.append(f't{i}')
+                return ok
+
+            def unlock():
+                trace.append(f'u{i}')
+                return u0()
+
+            def check_lock():
+                had = os.path.exists(path)
+                free = c0()
+                if had and free and not os.path.exists(path):
+                    trace.append('x')
+                return free
+            lock._try_lock, lock._unlock, lock._check_lock = try_lock, unlock, check_lock
             async with lock.write_lock():
                 holders.append(i)
                 if len(holders) > 1:
@@ -305,6 +330,9 @@ async def filelock_case(part, r):
                 try:
                     for _ in range(yields):
                         await asyncio.sleep(0)
+                        if not os.path.exists(path):
+                            events.append(('no-file-while-held', i))
+                            break
                     if how == 'raise':
                         raise RuntimeError('boom')
                     if how == 'cancel':
@@ -317,17 +345,26 @@ async def filelock_case(part, r):
             for t, (how, y) in zip(tasks, plan):
                 if how == 'cancel' and not t.done() and tasks.index(t) in holders:
                     t.cancel()
+                if how == 'cancel-wait' and not t.done() and tasks.index(t) in started and tasks.index(t) not in holders and holders:
+                    t.cancel()
             if all(t.done() for t in tasks):
                 break
         res = await asyncio.gather(*tasks, return_exceptions=True)
         part.case(key='fl:' + repr(plan), nontrivial=any(h != 'ok' for h, _ in plan))
         for e in events:
             part.violation('monitor', f'FileLock: {e} with plan {plan}', case, signature='filelock-' + e[0])
+        # the recorded steps must be a run of the Lean model (in particular: only a holder ever unlocks), ending with the file state observed
+        out = m.ask('flock ' + (','.join(trace) or '-'))
+        part.stat('filelock-trace-compared')
+        want = f"ok file={1 if os.path.exists(path) else 0} holders=-"
+        if out != want:
+            part.violation('correspondence', f'FileLock: the recorded steps {trace} are not a run of the FileLock model ending in the observed state: model says {out!r}, '
+                           f'observed {want!r} (plan {plan})', dict(case, trace=trace), signature='filelock-model')
         if os.path.exists(path):
             part.violation('monitor', f'FileLock: the lock file is still there after every holder has left (plan {plan}, results {[type(x).__name__ for x in res]})', case,
                            signature='filelock-not-released')
         for x, (how, y) in zip(res, plan):
-            if isinstance(x, TimeoutError):
+            if isinstance(x, TimeoutError) and how != 'impatient':
                 part.violation('monitor', f'FileLock: a writer timed out although every holder leaves (plan {plan})', case, signature='filelock-timeout')
     finally:
         backends.rmtree(d)
